@@ -348,6 +348,27 @@ func checkC13(c *h.Check) {
 	}
 	bases := c13Bases()
 	parents := c13Parents()
+	if thorough {
+		// depth 3: every parent applied on top of every parent
+		var deeper []c13Expr
+		for _, e := range bases {
+			for _, p := range parents[1:] {
+				if expr, typ, ok := p.wrap(e); ok {
+					d := e
+					d.name = e.name + "+" + p.name
+					d.expr, d.typ = expr, typ
+					if p.name != "binary-operand" && p.name != "unary-operand" && p.name != "paren" && p.name != "index-of-lit" {
+						d.num = false
+					}
+					if d.iface && p.name != "paren" && p.name != "index-of-lit" {
+						d.iface = false // wrapped in a composite: the value itself is no longer interface-typed
+					}
+					deeper = append(deeper, d)
+				}
+			}
+		}
+		bases = append(bases, deeper...)
+	}
 	for _, e := range bases {
 		for _, p := range parents {
 			expr, typ, ok := p.wrap(e)
